@@ -71,4 +71,31 @@ theorem list_snoc_induction {α : Type} {P : List α → Prop} (hnil : P [])
   have := this l.reverse
   rwa [List.reverse_reverse] at this
 
+/-- an element of a duplicate-free list splits it in one way only -/
+theorem split_unique {α : Type} {pre post pre' post' : List α} {r : α}
+    (hnd : (pre ++ r :: post).Nodup) (he : pre ++ r :: post = pre' ++ r :: post') :
+    pre' = pre ∧ post' = post := by
+  induction pre generalizing pre' with
+  | nil =>
+    cases pre' with
+    | nil => simp at he; exact ⟨rfl, he.symm⟩
+    | cons x p' =>
+      simp only [List.nil_append, List.cons_append, List.cons.injEq] at he
+      obtain ⟨_, h2⟩ := he
+      simp only [List.nil_append, List.nodup_cons] at hnd
+      exact absurd (by rw [h2]; simp) hnd.1
+  | cons a p ih =>
+    cases pre' with
+    | nil =>
+      simp only [List.nil_append, List.cons_append, List.cons.injEq] at he
+      obtain ⟨h1, h2⟩ := he
+      simp only [List.cons_append, List.nodup_cons] at hnd
+      exact absurd (by rw [h1]; simp) hnd.1
+    | cons x p' =>
+      simp only [List.cons_append, List.cons.injEq] at he
+      obtain ⟨h1, h2⟩ := he
+      simp only [List.cons_append, List.nodup_cons] at hnd
+      obtain ⟨e1, e2⟩ := ih hnd.2 h2
+      exact ⟨by rw [h1, e1], e2⟩
+
 end Xs
